@@ -17,7 +17,7 @@ from concurrent.futures import ThreadPoolExecutor
 import vcheck as V
 
 PID = "C14"
-BUGS = ["bug_key", "bug_key_warm", "bug_time", "bug_stale"]
+BUGS = ["bug_key", "bug_key_warm", "bug_time", "bug_stale", "bug_maturity"]
 
 
 def export_histories(c):
@@ -40,10 +40,15 @@ def features(h):
         if e["k"] == "block" and e["verdict"] != "ok":
             f.add("rejected-block")
             f.add("rejected-" + e["verdict"])
-        if e["verdict"] == "ok" and e["v"] in ("wa", "s"):
+        if e["k"] == "block" and e["verdict"] == "immature":
+            # the unverified blocks of the branch whose verification just failed
+            later = [x["v"] for x in h if x["k"] == "block" and x["g"] == e["g"] and x["h"] <= e["h"]]
+            if "s" in seen_ok and "s" in later:
+                f.add("immature-after-s-verified")
+            if "m" in seen_ok and "m" in later:
+                f.add("immature-after-m-verified")
+        if e["verdict"] == "ok" and e["v"] in ("wa", "s", "m") and (e["k"] == "pool" or e["cyc"] == "verified"):
             seen_ok.add(e["v"])
-        if e["k"] == "block" and e["verdict"] == "immature" and "s" in seen_ok:
-            f.add("immature-after-s-verified")
         if e["v"] == "wb" and "wa" in seen_ok:
             f.add("wb-after-wa-verified")
         if e["k"] == "block" and e["g"] == "Y" and e["h"] == 7 and e["verdict"] == "ok":
@@ -58,7 +63,7 @@ def pick(hs, n, rnd):
     idx = list(range(len(hs)))
     rnd.shuffle(idx)
     chosen, need = [], {}
-    for f in ["immature-after-s-verified", "wb-after-wa-verified", "reorg", "rejected-script", "rejected-dead",
+    for f in ["immature-after-m-verified", "immature-after-s-verified", "wb-after-wa-verified", "reorg", "rejected-script", "rejected-dead",
               "rejected-immature", "pool-accept"]:
         need[f] = max(2, n // 8)
     for i in idx:
@@ -125,6 +130,8 @@ def judge(c, H, stats):
                 stats["vcache_hits_" + node] = stats.get("vcache_hits_" + node, 0) + 1
                 if st["class"] == "immature":
                     stats["immature_on_hit"] += 1
+            if st.get("m_cached") and st["class"] == "immature" and "CellbaseImmaturity" in st.get("text", ""):
+                stats["cellbase_maturity_rechecked_with_cached_tx"] += 1
             if e["k"] == "block" and not st.get("skipped"):
                 label = "%s%d%s" % (e["g"], e["h"], "" if want == "ok" else "!")
                 a = st["answers"]
@@ -176,13 +183,13 @@ def run_histories(c, items, nodes, par):
     chunks = [(k, items[k::par], nodes) for k in range(par) if items[k::par]]
     with ThreadPoolExecutor(max_workers=par) as ex:
         res = list(ex.map(replay_chunk, chunks))
-    stats = {"steps": 0, "answers": 0, "rejected_blocks": 0, "immature_on_hit": 0}
+    stats = {"steps": 0, "answers": 0, "rejected_blocks": 0, "immature_on_hit": 0, "cellbase_maturity_rechecked_with_cached_tx": 0}
     bad = 0
     for hs in res:
         for H in hs:
             bad += 1 if judge(c, H, stats) else 0
             fs = features(H["hist"])
-            c.case({"hist": H["hist"]}, bool(fs & {"immature-after-s-verified", "wb-after-wa-verified", "rejected-block"}))
+            c.case({"hist": H["hist"]}, bool(fs & {"immature-after-s-verified", "immature-after-m-verified", "wb-after-wa-verified", "rejected-block"}))
             c.add("traces_validated_against_impl", len(H["logs"]))
             if len(c.cov["samples"]) < 3:
                 c.sample({"history": H["hist"], "node_A_verdicts": [[s.get("verdict"), s.get("class"), s.get("vhit")] for s in H["logs"][0]["steps"][1:]]})
@@ -225,7 +232,8 @@ def run(tier):
     stats["histories_replayed"] = len(chosen)
     c.set("replay", stats)
     if (stats.get("vcache_hits_A", 0) < 1 or stats.get("vcache_hits_C", 0) < 1 or stats["rejected_blocks"] < 1
-            or stats["immature_on_hit"] < 1 or stats.get("vcache_hits_B", 0) != 0):
+            or stats["immature_on_hit"] < 1 or stats["cellbase_maturity_rechecked_with_cached_tx"] < 1
+            or stats.get("vcache_hits_B", 0) != 0):
         raise V.ToolError("vacuous replay: %s" % stats)
     return c.finish()
 
